@@ -61,7 +61,7 @@ def load_module(path: str) -> ModuleInfo:
                 imports[a.asname or a.name] = (rel, a.name, modname)
         elif isinstance(node, ast.Import):
             for a in node.names:
-                imports[(a.asname or a.name).split(".")[0]] = (None, None, a.name)
+                imports[(a.asname or a.name).split(".")[0]] = (None, None, a.name if a.asname else a.name.split(".")[0])
     for node in tree.body:
         if isinstance(node, (ast.Assign, ast.AnnAssign)):
             targets = node.targets if isinstance(node, ast.Assign) else [node.target]
